@@ -237,8 +237,37 @@ fn gen_input(rng: &mut Rng, corpus: &[String], k: usize) -> (String, &'static st
     }
 }
 
+/// Definitions with one very long line: a long member name, a long field list, long blank runs
+/// or a long comment, broken (or not) at the far end of that line.
+fn long_lines(thorough: bool) -> Vec<String> {
+    let mut sizes = vec![65_400usize, 65_520, 65_535, 65_536, 65_600, 70_000, 131_072];
+    if thorough {
+        sizes.extend([65_534, 65_537, 99_999, 200_000, 300_000, 1_000_000]);
+    }
+    let mut out = Vec::new();
+    for n in sizes {
+        for tail in ["", " %", "\n§"] {
+            out.push(format!("interface a.b\nmethod M(a{}: int) -> (){}", "a".repeat(n), tail));
+            out.push(format!("interface a.b\nmethod M(){}-> (){}", " ".repeat(n), tail));
+            out.push(format!("interface a.b{}{}\nmethod M() -> ()", "\t".repeat(n), if tail.is_empty() { "" } else { "§" }));
+            out.push(format!("interface a.b\n# {}\nmethod M() -> (){}", "é".repeat(n / 2), tail));
+            if n <= 131_072 {
+                let mut fields = String::new();
+                let mut i = 0;
+                while fields.len() < n {
+                    fields.push_str(&format!("f{}: int, ", i));
+                    i += 1;
+                }
+                out.push(format!("interface a.b\ntype T ({}last: int){}", fields, tail));
+                out.push(format!("interface a.b\ntype T ({}last: int{}", fields, tail));
+            }
+        }
+    }
+    out
+}
+
 pub fn main(ctx: &Ctx) -> i32 {
-    ctx.set_rule("inputs: random Unicode strings; byte-level mutations of valid definitions; every/random prefixes of corpus definitions (the repository's .varlink files + generated ones); all five line-ending conventions uniform and mixed with an injected error; nesting by (a: / [] / [string] / ?[] to depth 200; token mutations; pathological repetitions up to 64 KiB; each parsed in a worker process on a 2 MiB-stack thread under catch_unwind with a 10 s watchdog; distinct = (input hash); non-trivial = outcome is an error, or nesting >= 8");
+    ctx.set_rule("inputs: random Unicode strings; byte-level mutations of valid definitions; every/random prefixes of corpus definitions (the repository's .varlink files + generated ones); all five line-ending conventions uniform and mixed with an injected error; nesting by (a: / [] / [string] / ?[] to depth 200; token mutations; pathological repetitions up to 64 KiB; single lines of 65 400 to 131 072 (thorough: 1 000 000) columns — long name, long field list, long blank run, long comment — intact or broken at the far end; each parsed in a worker process on a 2 MiB-stack thread under catch_unwind with a 10 s watchdog; distinct = (input hash); non-trivial = outcome is an error, or nesting >= 8");
     ctx.assume("termination is bounded: an input that exceeds 10 s is re-run alone up to three times with a 60 s limit; only a consistent overrun is a violation, a single expiry is inconclusive");
     // corpus
     let mut corpus: Vec<String> = Vec::new();
@@ -307,6 +336,14 @@ pub fn main(ctx: &Ctx) -> i32 {
                 }
             }
         };
+        // lines longer than 65 535 columns with the syntax error at their far end (the error's
+        // column then exceeds what a 16-bit quantity holds)
+        for (li, t) in long_lines(ctx.tier.pick(false, true)).into_iter().enumerate() {
+            if li % nw == w && ctx.violations() < 3 {
+                run(t, "long-line", &mut rng, &mut wk);
+                inputs_done += 1;
+            }
+        }
         for (ci, t) in corpus.iter().enumerate().take(6) {
             let cs: Vec<char> = t.chars().collect();
             let step = ctx.tier.pick(7, 1);
